@@ -96,6 +96,48 @@ def observer_failures(cls, buf, rng, rounds, edited=False):
             return
 
 
+def observer_object_failures(obj, rng, rounds):
+    """the observer stage on an object a caller constructed (not parsed)"""
+    snap = snapshot(obj)
+    if snap is None or not rt.same(obj, snap):
+        return
+    names = [n for n in OBSERVERS if hasattr(obj, n)]
+    first = {}
+    for _ in range(rounds):
+        n = rng.choice(names)
+        r = observe(obj, n)
+        if n in first and first[n] != r and n not in ('__repr__',):
+            yield n, 'observer %s returns a different result when called again' % n
+            return
+        first.setdefault(n, r)
+        if not rt.same(obj, snap):
+            yield n, 'the object differs from a copy taken beforehand after calling %s (%s)' % (n, r[0])
+            return
+
+
+def constructed_objects():
+    """objects built by a caller with values the wire format carries only in part (a time with microseconds in a hello random,
+    hellos created with their default arguments): serialising rounds on the wire, never in the object"""
+    import datetime
+    from cryptodatahub.tls.algorithm import TlsCipherSuite
+    from cryptoparser.tls.subprotocol import (TlsHandshakeHelloRandom, TlsHandshakeClientHello, TlsHandshakeServerHello, TlsCipherSuiteVector)
+    from cryptoparser.tls.version import TlsProtocolVersion
+    from cryptodatahub.tls.version import TlsVersion
+    t = datetime.datetime(2018, 8, 10, 1, 2, 3, 456789)
+    out = []
+    for build in (lambda: TlsHandshakeHelloRandom(t), lambda: TlsHandshakeHelloRandom(t, bytearray(range(28))),
+                  lambda: TlsHandshakeClientHello(TlsCipherSuiteVector(list(TlsCipherSuite)[:3]), TlsProtocolVersion(TlsVersion.TLS1_2), TlsHandshakeHelloRandom(t)),
+                  lambda: TlsHandshakeClientHello(TlsCipherSuiteVector(list(TlsCipherSuite)[:3])),
+                  lambda: TlsHandshakeServerHello(TlsProtocolVersion(TlsVersion.TLS1_2), TlsHandshakeHelloRandom(t), cipher_suite=list(TlsCipherSuite)[0]),
+                  lambda: TlsHandshakeServerHello(cipher_suite=list(TlsCipherSuite)[0])):
+        try:
+            o = build()
+        except Exception:  # pylint: disable=broad-except
+            continue
+        out.append(o)
+    return out
+
+
 def alias_failures(cls, buf):
     ba = bytearray(buf)
     try:
@@ -320,6 +362,15 @@ def run(chk):
                     if key not in seen:
                         seen.add(key)
                         chk.violation('%s: %s' % (name, detail), {'class': name, 'input': b.hex(), 'predicate': 'alias'}, key, True)
+    for obj in constructed_objects():
+        evals += 1
+        name = sweep.qualname(type(obj))
+        for obs, detail in observer_object_failures(obj, rng, 4 * rounds):
+            key = '%s/observer-constructed:%s' % (name, obs)
+            if key not in seen:
+                seen.add(key)
+                chk.violation('%s (constructed with a time that has microseconds / with default arguments): %s' % (name, detail),
+                              {'class': name, 'predicate': 'observer-constructed', 'observer': obs}, key, True)
     # client hellos encoded by the Coq specification with each of the four combinations of the two signalling suites: the
     # observers (compose, ja3, as_json, ...) must leave the hello as it was and keep returning the same results
     from harness import impl, tlsgen
